@@ -49,7 +49,7 @@ class Engine:
         ctx = self.ctx
         key = (family, ctx.assertions, ch, call, planspec)
         if self.lockstep:
-            pair = ("VALNM", "VALLM") if family == "VALNM" else ("NM", "LM")
+            pair = F.LOCKSTEP_PAIRS.get(family, ("NM", "LM"))
             with ctx.guard({"family": "+".join(pair), "state": [list(c) for c in ch], "call": F._jsonable(call), "plan": F._jsonable(planspec)}):
                 exn = F.execute(pair[0], ch, call, planspec, snaps_on)
                 exl = F.execute(pair[1], ch, call, planspec, snaps_on)
@@ -137,7 +137,13 @@ class Engine:
             if level >= 2:
                 for j in range(i + 1, len(ex.events)):
                     self.one(family, ch, call, ("multi", (i, j)))
+                # the user's exception may be of any class: assert-style vetoes, ValueError, RuntimeError, a TreeError subclass
+                self.one(family, ch, call, ("once", i, ("AssertionError", "ValueError", "RuntimeError", "TreeError")[(i + len(ch)) % 4]))
         kinds_seen = {e[0] for e in clean.events}
+        if level >= 2 and call[0] == "setchildren" and not clean.events:
+            # a request refused before any hook fired: persistent vetoes must stay irrelevant for it
+            for kind in F.PRE_KINDS:
+                self.one(family, ch, call, ("persist", kind, None))
         for kind in F.KINDS:
             # a persistent fault on a kind that never fires in the clean run can
             # still matter in the rollback only if some fault happens: skip
@@ -201,7 +207,7 @@ class Engine:
                         lvl = 1 if self.faults and (si * 7919 + ci * 31 + ctx.seed) % 40 == 0 else 0
                         self.explore(fam, ch, call, lvl)
                 ctx.exhaustive.append("family %s: all %d ordered forests over 5 nodes x all %d repetition-free calls fault-free" % (fam, len(forests), len(calls)))
-        # P4': lock step also for value-equality classes (equal-comparing distinct siblings)
+        # P4': lock step also for value-equality classes (equal-comparing distinct siblings) and always-falsy classes
         if self.lockstep:
             for k in (2, 3, 4):
                 calls = list(F.all_calls(k, "LM", itkinds=("list",)))
@@ -211,7 +217,7 @@ class Engine:
                             continue
                         if k == 4 and (si + ci) % 6:
                             continue
-                        self.explore("VALNM", ch, call, 1 if (si + ci) % 3 == 0 else 0)
+                        self.explore("VALNM" if (si + ci) % 2 else "FALSYNMB", ch, call, 1 if (si + ci) % 3 == 0 else 0)
         # P4: other node classes (Node, AnyNode, symlink mixes, value-equality and falsy classes)
         if not self.lockstep:
             for fam in ("Node", "AnyNode", "MIX", "VALNM", "VALLM", "FALSY", "FALSYLM", "ITER"):
@@ -235,7 +241,7 @@ class Engine:
         two-call sequences of all calls): what a call leaves behind in the objects matters to the next."""
         ctx = self.ctx
         F = self.F
-        fams = ("NM",) if self.lockstep else ("NM", "LM", "FALSY", "FALSYLM")
+        fams = ("NM", "FALSYNMB") if self.lockstep else ("NM", "LM", "FALSY", "FALSYLM")
         k = 3
         U = list(range(k))
         sp = [("setparent", n, p) for n in U for p in [None] + U]
@@ -266,8 +272,8 @@ class Engine:
         ctx = self.ctx
         F = self.F
         if self.lockstep:
-            recs = [F.Rec(F.materialise("NM", ch0)), F.Rec(F.materialise("LM", ch0))]
-            fms = ("NM", "LM")
+            fms = F.LOCKSTEP_PAIRS.get(fam, ("NM", "LM"))
+            recs = [F.Rec(F.materialise(fms[0], ch0)), F.Rec(F.materialise(fms[1], ch0))]
         else:
             recs = [F.Rec(F.materialise(fam, ch0))]
             fms = (fam,)
@@ -332,7 +338,7 @@ class Engine:
         T = self.thorough
         total = 6000 if T else 480
         per = max(1, total // ctx.nshards)
-        fams = ("NM",) if self.lockstep else ("NM", "LM", "MIX", "Node", "AnyNode", "VALNM", "VALLM", "FALSY", "FALSYLM")
+        fams = ("NM", "NM", "VALNM", "FALSYNMB") if self.lockstep else ("NM", "LM", "MIX", "Node", "AnyNode", "VALNM", "VALLM", "FALSY", "FALSYLM")
         for h in range(per):
             rng = ctx.rng("hist", h)
             fam = fams[h % len(fams)] if h % 3 else fams[h % 2 % len(fams)]
@@ -340,7 +346,8 @@ class Engine:
             steps = rng.randint(20, 150 if T else 50)
             ch0 = gen.random_forest(rng, k)
             if self.lockstep:
-                recs = [F.Rec(F.materialise("NM", ch0)), F.Rec(F.materialise("LM", ch0))]
+                pair = F.LOCKSTEP_PAIRS[fam]
+                recs = [F.Rec(F.materialise(pair[0], ch0)), F.Rec(F.materialise(pair[1], ch0))]
             else:
                 recs = [F.Rec(F.materialise(fam, ch0))]
             hist = []
@@ -363,7 +370,7 @@ class Engine:
                 hist.append([F._jsonable(call), F._jsonable(planspec)])
                 case = {"family": fam, "state": [list(c) for c in ch0], "history": hist}
                 with ctx.guard(case):
-                    exs = [F.run_call(r, fm, call, F.Plan(planspec)) for r, fm in zip(recs, ("NM", "LM") if self.lockstep else (fam,))]
+                    exs = [F.run_call(r, fm, call, F.Plan(planspec)) for r, fm in zip(recs, pair if self.lockstep else (fam,))]
                     ex = exs[0]
                     key = ("hist", fam, ctx.assertions, M.ch_of(ex.pre), call, planspec)
                     self.observe(ex, key)
